@@ -569,7 +569,9 @@ def run_namespace(stats):
             continue
         for attr, val in vars(mod).items():
             n += 1
-            modname = val.__name__ if isinstance(val, types.ModuleType) else (getattr(val, "__module__", None) or "")
+            if isinstance(val, types.ModuleType):
+                continue  # `import asyncio` by itself says nothing about use; calls are watched by the CALL monitor
+            modname = getattr(val, "__module__", None) or ""
             if not isinstance(modname, str):
                 continue
             if (modname == "asyncio" or modname.startswith("asyncio.") or modname == "_asyncio") and attr != "iscoroutinefunction" \
